@@ -130,7 +130,7 @@ def shards(tier):
     q = tier == "quick"
     out = []
     for i in range(12 if q else 12):
-        out.append({"name": "hyp:%d" % i, "kind": "hyp", "examples": 22 if q else 300})
+        out.append({"name": "hyp:%d" % i, "kind": "hyp", "examples": 22 if q else 200})
     for i in range(2 if q else 4):
         out.append({"name": "hyp-njobs:%d" % i, "kind": "hyp", "examples": 12 if q else 120, "n_jobs": (2, 3, 4, 16), "procs": 4})
     return out
